@@ -43,7 +43,7 @@ def arg(v, name=""):
 
 
 CORPUS = [
-    0, 1, 2, -1, True, 1.5, None, "", "a", "ab", "b", "ba", "abab",
+    0, 1, 2, -1, True, 1.5, 0.0, 1.0, None, "", "a", "ab", "b", "ba", "abab",
     (), (1,), (1, "a"), ("a", 1), (1, 2), (True, "a"), ("a",), (1, "a", 2),
     [], [1], ["a"], [1, "a"], ["a", 1],
     {}, {"a": 1}, {"b": "x"}, {1: "a"}, {"a": "x", "b": 2},
@@ -53,7 +53,7 @@ CORPUS = [
 def types(big=False):
     T = []
     I, S, O = cls("int"), cls("str"), cls("object")
-    for vals in ([0], [1], [0, 1], ["a"], ["a", "b"], [0, "a"], [2, -1, 0]):
+    for vals in ([0], [1], [0, 1], ["a"], ["a", "b"], [0, "a"], [2, -1, 0], [1.0], [0.0, 1.0], [1.5, 2.0]):
         bounds = sorted({type(v).__name__ for v in vals})
         b = cls(bounds[0]) if len(bounds) == 1 else {"k": "union", "args": [cls(x) for x in bounds]}
         T.append({"k": "lit", "vals": [vterm(v) for v in vals], "bound": b, "py": ["lit", vals]})
@@ -80,6 +80,20 @@ def types(big=False):
     T.append({"k": "union", "args": [l0, sw], "py": ["or", l0["py"], sw["py"]]})
     T.append({"k": "prod", "args": [l0, sw], "bound": cls("tuple"), "py": ["prod", [l0, sw]]})
     return T
+
+
+def twins(py):
+    """Literal annotations whose values are numerically equal to those of `py` but of another type
+    (1 / 1.0): other annotations that may exist anywhere in the process before this one is written."""
+    if py[0] != "lit":
+        return []
+    vals = py[1]
+    out = []
+    if all(isinstance(v, int) and not isinstance(v, bool) for v in vals):
+        out.append(typing.Literal[tuple(float(v) for v in vals)])
+    if all(isinstance(v, float) and v == int(v) for v in vals):
+        out.append(typing.Literal[tuple(int(v) for v in vals)])
+    return out
 
 
 def real(py):
